@@ -21,7 +21,7 @@ FUNCTIONS = {
     "ATN": "ATN",
     "COS": "COS",
     "EXP": "EXP",
-    "FIX": "FIX",
+    "FIX": "INT",
     "LEN": "LEN",
     "LOG": "LOG",
     "PEEK": "PEEK",
